@@ -329,6 +329,7 @@ class C08(Prop):
         "C08: pandas glue (accessor copy, _validate, broadcast to Series/DataFrame, index alignment) is modelled as element-wise map / cross product / zip; alignment BY LABEL is computed by the harness (which value meets which curve) and the paired scalar evaluations are compared with the model and, in the oracle, with scalar calls of the real code; a curve without a value gives NaN; a value whose label has no curve must give NaN (repaired behaviour, finding cycles-label-without-curve-infinite-life)",
         "C08: integer-typed loads / cycle numbers / curve fields mean the same numbers as floats (the oracle demands bit-equal results); unsigned cycle numbers into load() were a recorded defect (load-unsigned-cycles-wraparound, fixed by /repo commit c9a3e4d): the finding being fixed, those inputs go through the correspondence like every other input (only while the class has status open would they be judged by the oracle alone, which then tolerates exactly the reproduced defective value)",
         "C08: loads and cycle numbers are positive; for load <= 0 the code returns inf/NaN without raising (outside the theorems' guards)",
+        "C08 HARNESS-SIDE READING (k_2 = NaN): a NaN in k_2 (a frame assembled from curves with and without the key holds NaN there) is read as 'no second slope' = infinity, like a missing k_2 (class docstring of WoehlerCurve): the harness function `k2_of` maps a missing, an 'inf' and a 'nan' k_2 to +inf BEFORE the curve reaches the model, so the Lean model never sees a NaN slope and the theorems say nothing about one; the real code is fed the NaN itself, and correspondence and oracle demand the infinite life of a curve without second slope below the knee (finding cycles-nan-k2-not-infinite, a regression of 7867a83 repaired by /repo commit c54eae5)",
     ]
 
     # tie T (DESIGN 1.1): lean/Generated/<name>.lean are regenerated from the current python source before the build;
